@@ -796,7 +796,8 @@ func runRequests(c RCase) (map[string]int, error) {
 				timeout = time.Duration(r.T) * time.Millisecond
 			}
 			if r.B == "held" {
-				timeout = time.Duration(r.T) * time.Millisecond
+				// "arrived within the timeout" needs a timeout that has not passed yet when the reply arrives
+				timeout = time.Duration(max(r.T, 5)) * time.Millisecond
 			}
 			rq := reqMsg{Token: i, B: r.B, replied: make(chan struct{})}
 			rs := e.Request(resp[r.R], rq, timeout)
@@ -907,7 +908,8 @@ func genRequests(t *rapid.T) RCase {
 		c.Reqs = append(c.Reqs, Req{
 			R: rapid.IntRange(0, c.Responders-1).Draw(t, "r"),
 			B: rapid.SampledFrom([]string{"reply", "reply", "reply", "twice", "none", "late", "held"}).Draw(t, "b"),
-			T: rapid.IntRange(5, 40).Draw(t, "t"),
+			// 0 = a request whose timeout has passed as soon as it is made (Result() must still clean up)
+			T: rapid.SampledFrom([]int{0, 0, 5, 8, 13, 21, 30, 40}).Draw(t, "t"),
 		})
 	}
 	return c
